@@ -212,6 +212,12 @@ static const struct { const char *name; int n; int keys[MAXN]; int thorough; } c
 	{ "n1", 1, { 1 }, 0 },
 	{ "n5-12233", 5, { 1, 2, 2, 3, 3 }, 0 },
 	{ "n5-32121", 5, { 3, 2, 1, 2, 1 }, 0 },
+	/* the comparator returns the difference of the keys as an int: any magnitude is a legal comparator result
+	 * (differences that are multiples of 2^8 / 2^16, that change sign when narrowed, that need all 31 bits) */
+	{ "n4-wide8", 4, { 0, 256, 256, 512 }, 0 },
+	{ "n4-wide16", 4, { 131072, 65536, 65536, 0 }, 0 },
+	{ "n4-wideN", 4, { 1, 1000, 1000, 100000 }, 0 },
+	{ "n4-wide31", 4, { 1000000000, 0, 0, -1000000000 }, 0 },
 	{ "n6-122333", 6, { 1, 2, 2, 3, 3, 3 }, 1 },
 	{ "n6-321321", 6, { 3, 2, 1, 3, 2, 1 }, 1 },
 };
